@@ -1,6 +1,8 @@
 package pt
 
 import (
+	"maps"
+
 	"github.com/invopop/gobl/bill"
 	"github.com/invopop/gobl/cbc"
 	"github.com/invopop/gobl/tax"
@@ -71,7 +73,7 @@ func migrateInvoiceTaxCombo(tc *tax.Combo) {
 		for _, m := range taxRateVATExemptMigrationMap {
 			if m.Key == tc.Rate {
 				tc.Rate = tax.RateExempt
-				tc.Ext = m.Ext
+				tc.Ext = maps.Clone(m.Ext) // the table is shared: never hand it out
 				break
 			}
 		}
